@@ -404,7 +404,7 @@ theorem anteOK_true {s : State} {t : Tx} {sim : Bool} (h : anteOK s t sim = true
     (t.pk = true → keyAddr s t.signer = t.msg.signer s) := by
   unfold anteOK at h
   simp only [Bool.and_eq_true, decide_eq_true_eq, ge_iff_le, bne_iff_ne, ne_eq] at h
-  obtain ⟨⟨⟨h1, h2⟩, h3⟩, h4⟩ := h
+  obtain ⟨⟨⟨⟨h1, h2⟩, _⟩, h3⟩, h4⟩ := h
   refine ⟨h1, h2, h3, ?_⟩
   split at h4
   · simp at h4
@@ -759,6 +759,14 @@ theorem gov_endBlock {s s1 : State} {ups : List (Addr × Int)}
   repeat' split
   all_goals simp
 
+/-- replay protection: an accepted transaction is not in the tx index -/
+theorem anteOK_index {s : State} {t : Tx} {sim : Bool} (h : anteOK s t sim = true) :
+    s.index.contains t.id = false := by
+  unfold anteOK at h
+  simp only [Bool.and_eq_true] at h
+  obtain ⟨⟨⟨_, hi⟩, _⟩, _⟩ := h
+  simpa using hi
+
 /-- shape of a successful stake: one transfer from the (key) address to the pool; the rest of the
 handler touches neither balances nor supply nor the governance part -/
 theorem handle_stake_some {s s' : State} {k : Nat} {amt : Int} (h : handle s (.stake k amt) = some s') :
@@ -770,6 +778,7 @@ theorem handle_stake_some {s s' : State} {k : Nat} {amt : Int} (h : handle s (.s
   obtain ⟨hk, _, _, _, _, h⟩ := h
   split at h; · simp at h
   rename_i s1 h1
+  split at h; · simp at h
   refine ⟨by simpa using hk, _, s1, ?_, ?_, ?_, ?_, h1, ?_⟩
   · rfl
   · rfl
